@@ -337,7 +337,85 @@ func (f Frame) term(v ssa.Value) (int64, bool) {
 			}
 		}
 	}
+	// a field of a by-value parameter that the caller binds to a package-level struct of
+	// constants (`kindsReplaceable.contains(kind)` reading r.from / r.to inside contains)
+	if k, ok := f.globalFieldTerm(v); ok {
+		return k, true
+	}
 	return ConstInt(v)
+}
+
+// GlobalFieldConstHook: the integer constant that field #i of the package-level struct variable g
+// holds for the whole run — set by the package initialiser and assigned nowhere else (installed
+// by the loader, which sees the whole module).
+var GlobalFieldConstHook = func(g *ssa.Global, i int) (int64, bool) { return 0, false }
+
+func (f Frame) globalFieldTerm(v ssa.Value) (int64, bool) {
+	var base ssa.Value
+	field := -1
+	switch x := v.(type) {
+	case *ssa.Field:
+		base, field = x.X, x.Field
+	case *ssa.UnOp:
+		if fa, ok := x.X.(*ssa.FieldAddr); ok && x.Op == token.MUL {
+			base, field = fa.X, fa.Field
+			// the spilled copy of a by-value parameter
+			if a, isAlloc := base.(*ssa.Alloc); isAlloc {
+				if st := StoresTo(a); len(st) == 1 {
+					base = st[0].Val
+				}
+			}
+		}
+	}
+	if field < 0 {
+		return 0, false
+	}
+	// directly a global, or a parameter bound (through the helper chain) to a load of one
+	for hop := 0; hop < 4; hop++ {
+		switch b := base.(type) {
+		case *ssa.Global:
+			return GlobalFieldConstHook(b, field)
+		case *ssa.UnOp:
+			if b.Op != token.MUL {
+				return 0, false
+			}
+			base = b.X
+		case *ssa.Parameter:
+			if f.In == nil {
+				return 0, false
+			}
+			calls := append([]*ssa.Call(nil), f.outer...)
+			bound := false
+			for k := len(calls) - 1; k >= 0 && !bound; k-- {
+				g := StaticCallee(&calls[k].Call)
+				if g == nil {
+					continue
+				}
+				for i, gp := range g.Params {
+					if gp == b && i < len(calls[k].Call.Args) {
+						base = calls[k].Call.Args[i]
+						bound = true
+					}
+				}
+			}
+			if !bound {
+				if g := StaticCallee(f.In); g != nil {
+					for i, gp := range g.Params {
+						if gp == b && i < len(f.In.Args) {
+							base = f.In.Args[i]
+							bound = true
+						}
+					}
+				}
+			}
+			if !bound {
+				return 0, false
+			}
+		default:
+			return 0, false
+		}
+	}
+	return 0, false
 }
 
 func (f Frame) full() Set {
